@@ -6,6 +6,7 @@ statements and with central finite differences.
 """
 from __future__ import annotations
 
+import os
 import random
 
 from vp.farm import Case, fp_of
@@ -71,8 +72,31 @@ def refactorings():
         "update_source": lambda m, r: (m.update_source(), {}),
         "simplify_statements": lambda m, r: (_simplify_all(m), {}),
         "simplify_expression_probe": _simplify_probe,
+        "make_declarative_after_reassignment": lambda m, r: _two(_reassign_after_ode(m, r), pm.make_declarative),
+        "cleanup_model_after_reassignment": lambda m, r: _two(_reassign_after_ode(m, r), pm.cleanup_model),
     }
     return R
+
+
+def _reassign_after_ode(m, r):
+    """Precondition for the refactorings that reorder / merge assignments: a symbol that the ODE system reads is assigned
+    again AFTER the ODE system (order and re-assignment are significant in Statements: the ODE system uses the value the
+    symbol had when the system was reached)."""
+    import sympy
+    from pharmpy.model import Assignment
+
+    sts = m.statements
+    ode = sts.ode_system
+    if ode is None:
+        raise ValueError("no ODE system")
+    before = {s.symbol.name for s in sts.before_odes if isinstance(s, Assignment)}
+    cands = sorted(str(x) for x in ode.free_symbols if str(x) in before)
+    if not cands:
+        raise ValueError("the ODE system reads no assigned symbol")
+    x = sympy.Symbol(r.choice(cands))
+    e = r.choice([x / 3, x * 2 + 1, sympy.log(1 + x**2)])
+    new = sts.before_odes + ode + Assignment.create(x, e) + sts.after_odes
+    return m.replace(statements=new)
 
 
 def _fix_a_variance(m, r):
@@ -148,6 +172,67 @@ def _simplify_probe(m, r):
     return (a, b), {"__targets__": [f"SPROBE{k}" for k in range(len(extra_a))]}
 
 
+# refactorings whose NONMEM result is also read back from its generated code (the written format is the model): the
+# others have listed code-generation findings of their own under C02
+REREAD_AFTER = ("convert_generic_and_back", "rename_symbols", "update_source", "simplify_statements", "unload_load_dataset")
+
+
+import re as _re
+
+_NM_RESERVED = _re.compile(r"^(S\d+|SC|S0|F\d+|F0|FO|ALAG\d+|R\d+|D\d+|K\d*(T\d+)?|KA|CL|V\d*|Q\d*|VSS|AOB|ALPHA|BETA|GAMMA|VM|KM|"
+                           r"R\d\d|VMX|KMX|Y|F|W|IPRED|IRES|IWRES)$")
+
+
+def _positional_names(src, dst):
+    """old name -> new name for parameters (thetas in order, then the rest in order) and random variables by position."""
+    m = {}
+    for group in (lambda x: [p.name for p in x.theta_params], lambda x: list(x.eta_names), lambda x: list(x.eps_names)):
+        a, b = group(src), group(dst)
+        if len(a) != len(b):
+            return None
+        m.update({x: y for x, y in zip(a, b) if x != y})
+    return m
+
+
+def _reread_check(c, rng, model, new, recs, K, rname, steps, sname):
+    """read(code(r(M))) must denote what r(M) denotes - judged only when read(code(M)) denotes what M denotes (so that a
+    defect of code generation that M already shows is not put down to the refactoring)."""
+    from pharmpy.modeling import read_model_from_string
+
+    from vp import denote
+
+    if getattr(getattr(new, "internals", None), "control_stream", None) is None:
+        return
+    if getattr(getattr(model, "internals", None), "control_stream", None) is None:
+        return
+
+    def rr(m):
+        return read_model_from_string(m.code)
+
+    def same(m):
+        back = denote.IRDen(rr(m))
+        here = denote.IRDen(m)
+        ren = _positional_names(here, back)
+        if ren is None:
+            raise denote.Mismatch("the number of parameters / random variables differs after reading the code back")
+        denote.compare_models(here, back, recs, random.Random(rng.random()), K, c, prefix="reread_", rename=ren)
+
+    try:
+        same(model)
+    except Exception:
+        c.hit("reread_precondition_failed")
+        return
+    c.hit("reread_checked")
+    try:
+        same(new)
+    except denote.Mismatch as mm:
+        c.violate(None, f"{rname} after {steps} on {sname}: the code generated for the result, read back, is another model "
+                        f"(the original's code reads back as the original): {mm.what}", {"code": new.code.splitlines()[:80]})
+    except Exception as e:
+        c.violate(None, f"{rname} after {steps} on {sname}: the code generated for the result cannot be read back "
+                        f"({type(e).__name__}: {str(e)[:120]}) although the original's code can", {"code": new.code.splitlines()[:80]})
+
+
 def run_case(rng, idx, tier):
     from vp import denote, histories
 
@@ -176,6 +261,19 @@ def run_case(rng, idx, tier):
         return _solve_ode(c, rng, model, sname, steps, tier)
     R = refactorings()
     rname = rng.choice(sorted(R))
+    # a third of the refactoring cases start from a generated control stream (block IFs, re-assignments, statements
+    # after Y, every ADVAN) instead of a corpus model; its own generator keeps the corpus cases what they were
+    grng = random.Random(f"C07:gen:{os.environ.get('VERIF_SEED', '0')}:{idx}")
+    if grng.random() < 0.34 and rname != "simplify_expression_probe":
+        from pathlib import Path
+
+        gm_model, gm = histories.gen_start_model(grng, Path(os.environ["VERIF_SCRATCH"]) / f"c07g{idx}")
+        if gm_model is not None:
+            model, steps = gm_model, []
+            sname = f"gen:{gm['meta'].get('advan')}:{gm['meta'].get('trans')}"
+            c.hit("generated_start_model")
+            if grng.random() < 0.5:
+                rname = grng.choice([n for n in REREAD_AFTER if n in R])
     c.sample = {"start": sname, "steps": steps, "refactoring": rname}
     c.fp = fp_of(sname, steps, rname)
     try:
@@ -214,21 +312,56 @@ def run_case(rng, idx, tier):
         j = denote.compare_models(a, b, recs, random.Random(rng.random()), K, c, rename=mapping, extra_targets=extra_targets)
         c.nontrivial = j > 0
         c.hit("held")
+        if rname in REREAD_AFTER and not (rname == "rename_symbols" and any(_NM_RESERVED.match(k) for k in (mapping or {}))) \
+                and not (rname == "convert_generic_and_back" and sname.startswith("gen:")):
+            # (a PREDPP-reserved name such as S2 or KA carries meaning through its spelling in the control stream;
+            # renaming one is the caller's business and is judged on the in-memory model only)
+            _reread_check(c, rng, model, new, recs, K, rname, steps, sname)
     except denote.Mismatch as mm:
         key = None
         if rname == "mu_reference_model" and any(getattr(s, "symbol", None) is not None and s.symbol.name.startswith("mu_")
                                                   for s in model.statements):
             key = "C07/mu-reference-model-not-idempotent"
-        elif rname == "cleanup_model" and "reads undefined symbol" in mm.what:
+        elif rname.startswith("cleanup_model") and "reads undefined symbol" in mm.what and rname == "cleanup_model":
             key = "C07/cleanup-model-drops-used-definition"
-        elif rname == "cleanup_model" and "dependent variable" in mm.what and "is not defined after" in mm.what:
+        elif rname.startswith("cleanup_model") and "dependent variable" in mm.what and "is not defined after" in mm.what:
             key = "C07/cleanup-model-removes-dv-definition"
         elif rname == "rename_symbols" and isinstance(mapping, dict) and any(k in a.dv_map for k in mapping) \
                 and "dependent variable" in mm.what:
             key = "C07/rename-symbols-skips-dependent-variables"
+        elif rname == "convert_generic_and_back" and sname.startswith("gen:") and _ode_rebuild_only(model, new, recs, rng, K, c):
+            key = CONVERT_KEY
         c.violate(key, f"{rname} after {steps} on {sname}: {mm.what}", {"detail": mm.detail, "mapping": mapping})
         c.nontrivial = True
     return c
+
+
+CONVERT_KEY = "C07/convert-generic-to-nonmem-rebuilds-ode-system"
+
+
+def _ode_rebuild_only(model, new, recs, rng, K, c):
+    """Delta check of CONVERT_KEY: with the ODE system of the original put back (if need be together with the original's
+    $PK statements) the converted model denotes the original - the defect is confined to the rebuilt ODE system and the
+    rate constants re-derived for it; the statements after the ODE system are still the conversion's."""
+    from vp import denote
+
+    try:
+        if model.statements.ode_system is None or new.statements.ode_system is None:
+            return False
+        for keep_pk in (True, False):
+            # first with only the ODE system put back, then also the $PK statements (the conversion renames and
+            # re-derives rate constants there)
+            pk = new.statements.before_odes if keep_pk else model.statements.before_odes
+            patched = new.replace(statements=pk + model.statements.ode_system + new.statements.after_odes)
+            try:
+                denote.compare_models(denote.IRDen(model), denote.IRDen(patched), recs, random.Random(rng.random()), K, c, prefix="delta_")
+                c.hit("delta_checks")
+                return True
+            except denote.Mismatch:
+                continue
+        return False
+    except Exception:
+        return False
 
 
 def _numeric_evaluators(c, rng, idx, tier):
